@@ -22,6 +22,8 @@ from common import REPO, impl_pybind, impl_matlab, classify_exc
 from props.c16 import gen_text
 
 PROP = "C14"
+KEYWORDISH = ["print", "lambda", "def", "from", "None", "pass", "async", "f", "serialize", "markdown", "svg", "clone"]
+STEMS = ["basis", "geometry", "nav", "linear", "sfm", "slam", "base", "inference", "symbolic", "discrete", "a", "zz9"]
 THEOREM_MODULES = ["WrapModel.Props.C14"]
 
 
@@ -29,7 +31,12 @@ def reuse_case(idx, payload):
     from gtwrap.pybind_wrapper import PybindWrapper
     seed, _ = payload
     rng = random.Random(seed * 1000003 + idx)
-    texts = [gen_text(rng, dict(extra_kinds=['cls', 'cls'], max_depth=2), serializable=0.5)[1] for _ in range(rng.randint(2, 4))]
+    # half of the sequences draw method and function names from a pool of names the generators treat specially
+    pool = KEYWORDISH if rng.random() < 0.5 else None
+    texts = [gen_text(rng, dict(extra_kinds=['cls', 'cls', 'func'], max_depth=2, mnames=pool), serializable=0.5)[1]
+             for _ in range(rng.randint(2, 4))]
+    if rng.random() < 0.3:
+        texts.append(texts[0])        # the same file again
     boost = rng.random() < 0.7
     res = dict(idx=idx, text=texts[-1], n=len(texts), boost=boost, bad=None)
     try:
@@ -78,7 +85,13 @@ def process_case(idx, payload):
         open(src, "w", encoding="utf-8").write(text)
         tpl = os.path.join(base, "t.tpl")
         open(tpl, "w").write(streams.TPL_MIN)
-        api = impl_pybind(text, streams.TPL_MIN, "modx", [''], True, [], [])
+        stems = rng.sample(STEMS, rng.choice([0, 2, 3, 5]))
+        subs = []
+        for st in stems:
+            sp = os.path.join(base, st + ".i")
+            open(sp, "w", encoding="utf-8").write(gen_text(rng, dict(max_depth=1), serializable=0.3)[1])
+            subs.append(sp)
+        api = impl_pybind(text, streams.TPL_MIN, "modx", [''], True, [], stems)
         apim = impl_matlab([text], "modx", [], True)
         if api[0] != "ok" or apim[0] != "ok":
             return res
@@ -86,13 +99,13 @@ def process_case(idx, payload):
             cwd = os.path.join(base, sub)
             os.makedirs(cwd)
             before = set(listing(base))
-            r = run_script([os.path.join(REPO, "scripts", "pybind_wrap.py"), "--src", src, "--module_name", "modx", "--out", "o.cpp",
+            r = run_script([os.path.join(REPO, "scripts", "pybind_wrap.py"), "--src", ";".join([src] + subs), "--module_name", "modx", "--out", "o.cpp",
                             "--template", tpl, "--use-boost-serialization"], cwd, {"PYTHONHASHSEED": hs, "LC_ALL": rng.choice(["C", "C.UTF-8"])})
             res["runs"] += 1
             got = open(os.path.join(cwd, "o.cpp"), encoding="utf-8").read() if os.path.exists(os.path.join(cwd, "o.cpp")) else None
             if r.returncode != 0 or got != api[1]:
                 res["bad"] = dict(what="pybind script output depends on hash seed / working directory / locale (PYTHONHASHSEED=%s)" % hs,
-                                  input=text, stderr=r.stderr[-300:])
+                                  input=text, submodules=stems, stderr=r.stderr[-300:], **(streams.first_diff(api[1], got) if got else {}))
                 return res
             new = set(listing(base)) - before
             if new != {os.path.join(sub, "o.cpp")}:
